@@ -167,7 +167,11 @@ theorem retarget_sound (src tgt : List Nat) (d d' : List Nat) (h : retarget src 
     ∃ text, specDecode src d = some text ∧ specDecode tgt d' = some text := by
   unfold retarget retargetWith at h
   split at h
-  · simp at h
+  · rename_i hnone
+    have hd : d = [] := List.max?_eq_none_iff.mp hnone
+    simp only [Option.some.injEq] at h
+    subst h; subst hd
+    exact ⟨[], by simp [specDecode], by simp [specDecode]⟩
   · rename_i m hm
     split at h
     · rename_i htake
